@@ -11,6 +11,7 @@ import (
 	"regexp"
 	"runtime"
 	"runtime/debug"
+	"runtime/pprof"
 	"sort"
 	"strconv"
 	"strings"
@@ -28,6 +29,13 @@ func WorkerMain(id string) {
 	if chk == nil {
 		fmt.Fprintln(os.Stderr, "unknown check", id)
 		os.Exit(3)
+	}
+	if pf := os.Getenv("VCHECK_CPUPROFILE"); pf != "" {
+		// development aid: CPU profile of a worker (one worker, use with --only)
+		if f, err := os.Create(pf); err == nil {
+			pprof.StartCPUProfile(f)
+			time.AfterFunc(90*time.Second, pprof.StopCPUProfile)
+		}
 	}
 	seed, _ := strconv.ParseInt(os.Getenv("VCHECK_SEED"), 10, 64)
 	env := &Env{Tier: os.Getenv("VCHECK_TIER"), Seed: seed, RunDir: os.Getenv("VCHECK_RUNDIR"), Repo: os.Getenv("VCHECK_REPO")}
